@@ -41,8 +41,8 @@ def check_program(prog, fname, *, harness, inst, extra_pre=(), quirks=(), optimi
                                       exc=getattr(e, "exc", None), where=getattr(e, "where", None)))
         return res
     shims.install_vm()
-    args, zvars, pre = joint.sym_inputs(f.params)
-    gvals, gz, gpre = joint.sym_inputs(prog.globals, prefix="g_")
+    args, zvars, pre = joint.sym_inputs(f.params, structs=prog.structs)
+    gvals, gz, gpre = joint.sym_inputs(prog.globals, prefix="g_", structs=prog.structs)
     zvars += gz
     pre = z3.And(*(pre + gpre + list(extra_pre(args, gvals) if callable(extra_pre) else extra_pre))) if (pre or gpre or extra_pre) else z3.BoolVal(True)
     gnames = [n for _, n in prog.globals]
@@ -125,8 +125,8 @@ def replay_values(prog, fname, vals, optimize=False, quirks=()):
     """Concrete re-execution through the public API.  -> description of the discrepancy or None."""
     from ..nslref.interp import OutOfDomain
     f = [x for x in prog.funcs if x.name == fname and x.exported][0]
-    args = joint.concrete_inputs(f.params, vals)
-    gl = joint.concrete_inputs(prog.globals, vals, prefix="g_")
+    args = joint.concrete_inputs(f.params, vals, structs=prog.structs)
+    gl = joint.concrete_inputs(prog.globals, vals, prefix="g_", structs=prog.structs)
     gnames = [n for _, n in prog.globals]
     try:
         r_ref, g_ref = joint.ref_run(prog, fname, args, gl, quirks=quirks)
@@ -145,7 +145,7 @@ def replay_values(prog, fname, vals, optimize=False, quirks=()):
     old = signal.signal(signal.SIGALRM, _alarm)
     signal.setitimer(signal.ITIMER_REAL, 5.0)
     try:
-        r_vm, g_vm = joint.vm_run(linked, fname, joint.concrete_inputs(f.params, vals), joint.concrete_inputs(prog.globals, vals, prefix="g_"), gnames)
+        r_vm, g_vm = joint.vm_run(linked, fname, joint.concrete_inputs(f.params, vals, structs=prog.structs), joint.concrete_inputs(prog.globals, vals, prefix="g_", structs=prog.structs), gnames)
     except Exception as e:  # noqa: BLE001
         return dict(args=args, globals=gl, expected=r_ref, vm_exception=f"{type(e).__name__}: {e}")
     finally:
